@@ -131,6 +131,9 @@ def run(ctx):
     except Unsupported as u:
         ctx.broken.append(Broken("translation", "to_json/from_json", str(u)))
 
+    import time as _time
+    timing = {"translate+build": round(_time.time() - ctx.t0, 1)}
+    _t = _time.time()
     # ---- predictors of the nine classes
     n = 16
     X = nrng.normal(size=(n, 2))
@@ -155,9 +158,12 @@ def run(ctx):
     cases, meta, dist = [], [], {}
     classes_seen = set()
     trips = 0
+    fit_s = 0.0
     try:
         for tag, make, Xq, timed in specs:
+            _tf = _time.time()
             o = enc.outcome(make)
+            fit_s += _time.time() - _tf
             if o[0] != "ok":
                 ctx.broken.append(Broken("harness", "fit-" + tag, o[1]))
                 continue
@@ -301,6 +307,9 @@ def run(ctx):
                               {"class": cname, "observed": oe[1] if oe[0] == "err" else "differs"})
     finally:
         shutil.rmtree(tmp, ignore_errors=True)
+    timing["fits"] = round(fit_s, 1)
+    timing["round trips"] = round(_time.time() - _t - fit_s, 1)
+    _t = _time.time()
     if gen is not None and cases:
         try:
             bad = ctx.run_cases("c07", "PyVal PyValIO Serial C07Codec", cases, shard=40)
@@ -311,6 +320,8 @@ def run(ctx):
             ctx.broken.append(Broken("correspondence", meta[i]["what"], "case %r: model gives %s" % (meta[i], shown[:600])))
     if len(classes_seen) < 9:
         ctx.broken.append(Broken("harness", "class-coverage", "only %d of 9 predictor classes built: %s" % (len(classes_seen), sorted(classes_seen))))
+    timing["model evaluation in Coq (%d cases)" % len(cases)] = round(_time.time() - _t, 1)
+    ctx.cov["timing_s"] = timing
     ctx.cov["evaluations"] = len(cases) + trips
     ctx.cov["traces_validated_against_impl"] = len(cases)
     ctx.cov["distinct_nontrivial"] = len({json.dumps(m_, sort_keys=True) for m_ in meta})
